@@ -8,6 +8,9 @@ CLAIMED = {
     "C05": ("Sound <alg> theorems (Lean) for the proved algorithms + correspondence of every compute_domains_* with the model + brute-force oracle on the implementation", "§7 C05"),
     "C06": ("GroundOk <alg> theorems + C06_point_iff; correspondence on instantiated boxes; oracle", "§7 C06"),
     "C07": ("EntailOk <alg> theorems; status correspondence; oracle", "§7 C07"),
+    "C08": ("bcLoopG_inv: for every admissible scheduler a pass preserves `queued ∨ fixpoint`, only shrinks, ends with an empty queue (C08_pass, C08_shipped); TrigOk per algorithm; step-level correspondence of every pass on random walks of the real engine", "§7 C08"),
+    "C09": ("BranchOk for the five shipped value heuristics (partition, untouched rest, complete events for the branch taken and every recorded alternative), backtrack restores the saved level and fails iff none is left; step-level correspondence of every decision on random walks of the real engine", "§7 C09"),
+    "C14": ("Exact <alg> theorems (support of every bound + idempotence), affineEq_oneRound; equality of model and implementation on the exhaustive small scope; brute-force hull", "§7 C14"),
 }
 NOT_YET = {}
 
